@@ -249,7 +249,8 @@ def r7(idx, rep):
 
     bad = None
     for pm, printers, want in (("no-default", ["std", "other"], ["other"]), ("no-default", ["other", "std"], ["other"]), ("no-default", ["other"], ["other"]),
-                               (" no-default ", ["std"], []), ("default", ["other"], ["other", "NEW"]), ("default", ["std", "other"], ["std", "other"])):
+                               (" no-default ", ["std"], []), ("no-default", ["std", "std2"], ["std2"]), ("no-default", ["other", "std", "std2"], ["other", "std2"]),
+                               ("default", ["other"], ["other", "NEW"]), ("default", ["std", "other"], ["std", "other"])):
         it = Interp(idx, types={"self": "PrintMode"}, unknown_calls="error", isinstance_oracle=iso,
                     handlers={"self.controller.get": lambda i, c, r, a, k, pm=pm: pm, "StdOutPrinter": lambda i, c, r, a, k: Obj("NEW")})
         ps = it.run_all(fi, store={"self.controller.csvpath.printers": [Obj(x) for x in printers]})
